@@ -141,7 +141,13 @@ func MemLimits(min uint32, max *uint32) []byte {
 // ---- deterministic PRNG (splitmix64): every random choice of a harness derives from one seed ----
 type Rng struct{ s uint64 }
 
-func NewRng(seed uint64) *Rng { return &Rng{seed*0x9E3779B97F4A7C15 + 0x1234567} }
+// NewRng scrambles the seed with the splitmix finalizer so that consecutive seeds give unrelated streams.
+func NewRng(seed uint64) *Rng {
+	z := seed + 0x9E3779B97F4A7C15
+	z = (z ^ (z >> 30)) * 0xBF58476D1CE4E5B9
+	z = (z ^ (z >> 27)) * 0x94D049BB133111EB
+	return &Rng{z ^ (z >> 31)}
+}
 func (r *Rng) U64() uint64 {
 	r.s += 0x9E3779B97F4A7C15
 	z := r.s
